@@ -198,6 +198,17 @@ func (b *setBox[T]) deepOps() []Op {
 		if n+3 <= b.sys.N {
 			ops = append(ops, op("AddFresh", 3))
 		}
+		if n+33 <= b.sys.N {
+			ops = append(ops, op("AddFresh", 33))
+		}
+	}
+	if n >= 4 {
+		// ONE Remove call that takes out many members: all, every second, the first 90 %, the last 75 %,
+		// all in reverse order mixed with absent values (a call that shrinks the set across whatever
+		// threshold the implementation may have while arguments are still pending)
+		for k := 0; k < 5; k++ {
+			ops = append(ops, op("RemoveMany", k))
+		}
 	}
 	if n > 0 {
 		for _, p := range litePositions(n - 1) {
@@ -227,6 +238,29 @@ func (b *setBox[T]) deepArgs(o Op) []T {
 		return vs
 	case "RemoveAbsent":
 		return []T{b.sys.Absent}
+	case "RemoveMany":
+		n := len(b.ref)
+		var vs []T
+		switch o.A[0] {
+		case 0:
+			vs = append(vs, b.ref...)
+		case 1:
+			for i := 0; i < n; i += 2 {
+				vs = append(vs, b.ref[i])
+			}
+		case 2:
+			vs = append(vs, b.ref[:n*9/10]...)
+		case 3:
+			vs = append(vs, b.ref[n/4:]...)
+		default:
+			for i := n - 1; i >= 0; i-- {
+				vs = append(vs, b.ref[i])
+				if i%3 == 0 {
+					vs = append(vs, b.sys.Absent)
+				}
+			}
+		}
+		return vs
 	}
 	return nil
 }
@@ -527,7 +561,7 @@ func (b *setBox[T]) CheckState() *Viol {
 		if got := b.a.contains(argSlice(long)...); got != allFound(long) {
 			return viol(tag("C04"), "mismatch", "Contains(every member, twice: %d arguments) = %v", len(long), got)
 		}
-		for _, k := range []int{9, 16, 33} {
+		for _, k := range []int{9, 16, 33, 65, 130} {
 			rep := make([]T, k)
 			for i := range rep {
 				rep[i] = b.ref[(i*7)%n]
